@@ -205,9 +205,21 @@ def check_program_end(ctx, rep, rule):
         # a copy of the field taken just before the test (`let next = self.current_token; if next == ..`)
         return isinstance(v, tuple) and len(v) == 3 and v[0] == 'field' and v[2] == cur_name
     n = 0
-    for p in AbsInt(F, fn, max_paths=20000).run():
+    # the list of statements produced by an iterator: `iter::from_fn(|| ..).collect()` - the standard library asks the closure for
+    # the next statement until it answers None, which is then the only way the program ends: the closure's None paths are examined
+    gen = None
+    names_ = [callee_name(t) for b, t in fn.calls()]
+    if any(n_.endswith('from_fn::from_fn') for n_ in names_) and any(n_.endswith('Iterator::collect') for n_ in names_):
+        for b, t in fn.calls():
+            if callee_name(t).endswith('from_fn::from_fn') and t['args']:
+                d = fn.def_rvalue(t['args'][0])
+                if d and d[0] == 'assign' and d[3]['k'] == 'aggregate' and d[3].get('closure') in F.fns:
+                    gen = F.fns[d[3]['closure']]
+    subject = gen or fn
+    for p in AbsInt(F, subject, max_paths=20000).run():
         r = simp(p.env.get('_0'))
-        if p.exit != 'return' or not (r and r[0] == 'agg' and r[2] == 'Ok'):
+        ends = (r and r[0] == 'agg' and r[2] == 'None') if gen is not None else (r and r[0] == 'agg' and r[2] == 'Ok')
+        if p.exit != 'return' or not ends:
             continue
         n += 1
         last = None
